@@ -226,12 +226,29 @@ def check_result(op, origin_attrs, R, hidden, renamed, added):
             for t in hidden_types:
                 if t in names:
                     vios.append(("C14/hidden-type-in-introspection", t))
+            listed = {d["name"] for d in intro["data"]["__schema"]["directives"]}
+            for dn in hidden["directives"]:
+                if dn in listed:
+                    vios.append(("C14/hidden-directive-in-introspection", dn))
             for tn, fn in hidden["fields"]:
                 for t in intro["data"]["__schema"]["types"]:
                     if t["name"] == tn and any(f["name"] == fn for f in (t.get("fields") or [])):
                         vios.append(("C14/hidden-field-in-introspection", "%s.%s" % (tn, fn)))
         except Exception as e:  # noqa
             vios.append(("C14/introspection-raises-after-%s/%s" % (kind, type(e).__name__), repr(e)[:200]))
+        for tn, fn in hidden["input_fields"]:
+            it = R.types.get(tn)
+            if it is None or tn in hidden_types:
+                continue
+            try:
+                from py_gql.exc import GraphQLError
+                from py_gql.utilities import coerce_value
+                coerce_value({fn: None}, it)
+                vios.append(("C14/hidden-input-field-still-accepted-by-coercion", "%s.%s" % (tn, fn)))
+            except GraphQLError:
+                pass
+            except Exception as e:  # noqa
+                vios.append(("C14/coercion-raises-after-%s/%s" % (kind, type(e).__name__), repr(e)[:200]))
         qname = R.query_type.name if R.query_type else None
         for tn, fn in hidden["fields"]:
             if tn == qname:
@@ -277,6 +294,16 @@ def run_case(case, ctx=None):
         snap = snapshot(S, eff, probe)
     except Exception as e:  # noqa
         return [("C14/source-snapshot-raises/%s" % type(e).__name__, repr(e)[:300])]
+    # the source has been in use: every input type has coerced a value once (which rejects an undeclared key)
+    from py_gql.exc import GraphQLError as _GE
+    from py_gql.utilities import coerce_value
+    for tn, t in eff["types"].items():
+        if t["kind"] == "input":
+            try:
+                coerce_value({"undeclared_key_": 1}, S.types[tn])
+                vios.append(("C14/source-input-type-accepts-undeclared-key", tn))
+            except _GE:
+                pass
     results = [(S, snap["attrs"], False)]  # (schema, its attrs at creation, camel-cased?)
     for step, op in enumerate(case["ops"]):
         src_i = op["on"] % len(results)
